@@ -246,8 +246,13 @@ def mon_sig(sc, r):
     if not cancels or not cancels[0][1].startswith(SHUT[S]): V("cancel-event", f"signal {S}: RunBeginCancel events {[d for _, d in cancels]}, expected reason {SHUT[S]}")
     for (ns, k, d) in r.events:
         if k == "TestStarted" and ns > t1 + 50e6: V("start-after-signal", f"test started {ms(ns - t1):.0f} ms after the shutdown signal: {d}")
-    want_exit = 105 if phase == "script" else 100
-    if r.exit != want_exit: V("exit", f"nextest exit status {r.exit} after a shutdown signal with unfinished units, expected {want_exit}")
+    # non-zero unless every selected test ran to a passing result (a unit that exits 0 on the signal has passed);
+    # 105 when the interrupted setup script ends as a failure
+    fins = {t["name"]: finished(r, key_of(t["bin"], t["pkg"], t["name"])) for t in m["tests"]}
+    all_passed = all(f and f[-1][1] in ("P", "L") for f in fins.values())
+    script_res = [d.split(" ")[2] for (ns, k, d) in r.events if k == "SetupScriptFinished"]
+    want_exit = (105 if script_res and script_res[0] not in ("P", "L") else 100) if phase == "script" else (0 if all_passed else 100)
+    if r.exit != want_exit: V("exit", f"nextest exit status {r.exit} after a shutdown signal (all selected tests passed: {all_passed}; setup script: {script_res}), expected {want_exit}")
     last_death = t1
     units = [(t, tprocs(r, t["bin"], t["name"])) for t in m["tests"]]
     if phase == "script":
@@ -296,7 +301,8 @@ def mon_sig(sc, r):
         for c in children_of(r, p):
             cs = [s for (_, s) in c["sigs"]]
             if g != 0 and cs[:1] != [S]: V("group", f"descendant of {t['name']} received {cs}, expected the group-wide signal {S}")
-            if c["pid"] in r.survivors: V("survivor", f"descendant {c['pid']} of {t['name']} is alive after nextest exited")
+            # only a group nextest killed must be gone; a descendant that ignores the forwarded signal while the unit exits on it lives on
+            if (kind == "run_ign" or g == 0) and c["pid"] in r.survivors: V("survivor", f"descendant {c['pid']} of {t['name']} is alive after nextest killed its process group")
             if kind == "run_ign" and c.get("end"): V("survivor", f"descendant of {t['name']} outlived the group kill")
     slack = SLACK_HI + 300 + (1500 if any(t["kind"] == "drain" for t in m["tests"]) else 0)
     if ms(r.t1 - last_death) > slack: V("exit-late", f"nextest exited {ms(r.t1 - last_death):.0f} ms after the last unit had to be dead")
@@ -551,6 +557,93 @@ def mon_cancel(sc, r):
     return out
 
 
+# ------------------------------------------------------------------------------------------------ the unit model as oracle
+
+SIGLET = {2: "HI", 15: "HT", 1: "HH", 3: "HQ"}
+
+
+def unit_events(sc, r, t, p):
+    """The event list the unit of test `t` saw, from the scenario script (what the process does) and the observed
+    moments of the injected signals (relative to the process start); None if this unit is not modelled."""
+    m = sc.meta; fam = m["family"]; kind = t["kind"]
+    rel = lambda ns: max(0, int(round(ms(ns - p["start"]))))
+    sent = [(ns, s) for (ns, s) in r.sent if s > 0]
+    big = 60000
+    if fam == "slow":
+        P, K, G = t["P"], t["K"], t["G"]; D = K * P if K else None
+        if kind in ("fast", "long_ok"): return ("spawn", P, K, G, [f"t{t['dur']}", "X", "F"])
+        if kind in ("hang_exit", "hang_default", "hang_out"): return ("spawn", P, K, G, [f"t{D}", "X", "F"])
+        if kind == "hang_late": return ("spawn", P, K, G, [f"t{D + (G // 2 if G else 0)}", "X", "F"])
+        if kind == "hang_ign": return ("spawn", P, K, G, [f"t{D + G}", "X", "F"])
+    if fam == "stop":
+        P, K, G = m["P"], m["K"], m["G"]; phase = m["phase"]
+        ts = next((ns for (ns, s) in sent if s == signal.SIGTSTP), None); tc = next((ns for (ns, s) in sent if s == signal.SIGCONT), None)
+        if phase in ("run", "timeout", "grace") and ts and tc and kind != "fast":
+            a = rel(ts); st = int(round(ms(tc - ts)))
+            if kind == "work": rest = max(0, t["run_ms"] - a)
+            elif kind == "hang_exit": rest = max(0, t["deadline"] - a)
+            else: rest = max(0, t["deadline"] + G - a)
+            return ("spawn", P, K, G, [f"t{a}", "S", f"t{st}", "C", f"t{rest}", "X", "F"])
+        if phase == "delay" and ts and tc and kind == "delay":
+            return None   # handled by delay_events
+    if fam == "sig" and m["phase"] == "running" and kind in ("run_die", "run_ign", "run_late"):
+        G = t["G"]; S = m["S"]
+        a = rel(sent[0][0]); ev = [f"t{a}", SIGLET[S]]
+        die = 0 if (kind == "run_die" or G == 0) else (G // 2 if kind == "run_late" else G)
+        if len(sent) > 1:
+            gap = int(round(ms(sent[1][0] - sent[0][0])))
+            if die > gap: ev += [f"t{gap}", "K", "X", "F"]
+            else: ev += [f"t{die}", "X", "F"]
+        else: ev += [f"t{die}", "X", "F"]
+        return ("spawn", 60000, None, G, ev)
+    return None
+
+
+def mon_model(sc, r):
+    """Correspondence: the unit model's prediction (signals with times, slow events, time-out, slow mark, running time)
+    against what the process recorded and nextest reported."""
+    out = []
+    V = lambda kind, what, **kw: out.append(mix.viol(sc, r, kind, what, kw))
+    if r.hung: return out
+    reqs = []
+    for t in sc.meta["tests"]:
+        ps = tprocs(r, t["bin"], t["name"])
+        if len(ps) < 1: continue
+        ue = unit_events(sc, r, t, ps[0])
+        if ue is None: continue
+        start, P, K, G, ev = ue
+        reqs.append((t, ps[0], f"unit {start} {P} {K if K else '-'} {G} 200 {','.join(ev)}"))
+    if not reqs: return out
+    try: answers = vlib.run_driver([q for (_, _, q) in reqs])
+    except RuntimeError as e: return [dict(mix.viol(sc, r, "machinery", f"model driver failed: {e}"), machinery=True)]
+    for (t, p, q), ans in zip(reqs, answers):
+        if ans == "bad-op": out.append(dict(mix.viol(sc, r, "machinery", f"model driver rejected {q}"), machinery=True)); continue
+        f = ans.split(" "); acts = [] if f[0] == "." else f[0].split(",")
+        fin = finished(r, key_of(t["bin"], t["pkg"], t["name"]))
+        if not fin: continue
+        st = fin[0]; res, slowflag, taken = st[1], st[2] == "slow", int(st[3][:-2])
+        info = dict(x.split("=") for x in f[1:])
+        if "PANIC" in ans: V("model", f"the unit model reaches an illegal timer transition on {q}: {ans}")
+        # catchable signals in order, with times
+        want = [(int(a[4:a.index("@")]), int(a[a.index("@") + 1:])) for a in acts if a.startswith("kill") and int(a[4:a.index("@")]) not in (9, 18, 20)]
+        got = [(s, ms(ns - p["start"])) for (ns, s) in p["sigs"] if s not in (18, 20)]
+        if t["kind"] == "hang_default": want = got = []      # dies by the default action: it cannot record the signal
+        if [s for s, _ in want] != [s for s, _ in got]: V("model", f"test {t['name']} ({t['kind']}): received signals {[(s, int(a)) for s, a in got]}, the unit model predicts {want}  [{q}]")
+        else:
+            for (s, tw), (_, tg) in zip(want, got):
+                if tg < tw - SLACK_LO - 60 or tg > tw + SLACK_HI: V("model", f"test {t['name']} ({t['kind']}): signal {s} at {tg:.0f} ms, the unit model predicts {tw} ms  [{q}]")
+        k9 = [int(a[a.index("@") + 1:]) for a in acts if a.startswith("kill9@")]
+        if k9 and p.get("end"): V("model", f"test {t['name']} ({t['kind']}): the unit model predicts SIGKILL at {k9[0]} ms but the process recorded its own exit  [{q}]")
+        if (info["timeout"] == "1") != (res == "T"): V("model", f"test {t['name']} ({t['kind']}): reported {res}, the unit model says timed out = {info['timeout']}  [{q}]")
+        if (info["slow"] == "1") != slowflag and not (t.get("dur") and abs(t["dur"] - t.get("P", 0)) < 120): V("model", f"test {t['name']} ({t['kind']}): slow mark {slowflag}, the unit model says {info['slow']}  [{q}]")
+        act = int(info["active"])
+        if taken < act - SLACK_LO - 60 or taken > act + SLACK_HI: V("model", f"test {t['name']} ({t['kind']}): reported duration {taken} ms, the unit model predicts {act} ms of running time  [{q}]")
+        wslow = [(int(a[4:a.index(":")]), a[a.index(":") + 1] == "1") for a in acts if a.startswith("slow")]
+        gslow = [(int(d.split(" ")[2][:-2]), d.split(" ")[3] == "will_terminate=true") for (ns, d) in events_for(r, "TestSlow", key_of(t["bin"], t["pkg"], t["name"]))]
+        if sc.meta["family"] in ("slow", "stop") and wslow != gslow: V("model", f"test {t['name']} ({t['kind']}): TestSlow events {gslow}, the unit model predicts {wslow}  [{q}]")
+    return out
+
+
 # ------------------------------------------------------------------------------------------------ running a family
 
 FAMILIES = {}
@@ -574,10 +667,10 @@ def run_family(name, seed, tier, n_quick, n_thorough, jobs=5, kinds=None):
             "violations": violations, "broken": broken, "samples": samples, "rule": RULES[name]}
 
 
-FAMILIES["slow"] = (gen_slow, [mon_slow])
-FAMILIES["sig"] = (gen_sig, [mon_sig])
+FAMILIES["slow"] = (gen_slow, [mon_slow, mon_model])
+FAMILIES["sig"] = (gen_sig, [mon_sig, mon_model])
 FAMILIES["cancel"] = (gen_cancel, [mon_cancel])
-FAMILIES["stop"] = (gen_stop, [mon_stop])
+FAMILIES["stop"] = (gen_stop, [mon_stop, mon_model])
 RULES = {
     "cancel": "end-to-end family `cancel`: fail-fast / max-fail runs where the failure arrives while another test is still running and later fails into a retry delay, or is already waiting out a retry delay; where the triggering failure is a timeout; max-fail = 2 on one thread; fail-fast off; monitors: cancellation begins exactly at the N-th failure, nothing (no test, no retry) starts afterwards, the run ends as soon as the running tests have ended (no retry delay sat out), exit 100",
     "stop": "end-to-end family `stop`: SIGTSTP then SIGCONT 700 ms later (nextest observed stopped/continued by its parent) while a test runs below its deadline, hangs towards its slow-timeout deadline, sits in the termination grace period (after a timeout, after a shutdown signal), or waits out a retry delay; SIGINT delivered while stopped; SIGUSR1 information requests; monitors: tests stopped and continued too, results and exit status unchanged, reported durations and the slow-timeout / grace / retry-delay clocks count running time only and keep working after resumption, no hang, no internal failure, each unit answers an information request at most once with its phase",
